@@ -41,7 +41,13 @@ REQUIRED_THEOREMS = [
     "seq_window_invariant", "served_exactly_once_sequence", "first_call_at_t_start", "sched_fixed_seqLike",
     "sched_log_seqLike", "sched_geom_seqLike", "fixed_list_served_exactly_once", "logarithmic_served_exactly_once",
     "geometric_served_exactly_once",
+    # Props/C08b.lean (theorem-gap round)
+    "frame_count_floor_iff", "scheduled_time_at_t_end_served_iff", "scheduled_times_up_to_t_end_served_whole_range",
+    "adaptiveStepper_lands", "adaptive_served_exactly_up_to_dtmin", "adaptive_served_exactly_run",
+    "adaptive_overshoot_by_dtmin", "adaptive_never_late_among_trackers", "adaptive_never_late_run",
 ]
+EXTRA_PROP_FILES = ["C08b"]  # frame count iff, scheduled time at t_end, adaptive steppers (Model/Adaptive.lean)
+MIN_LEGS = {"adaptive-model": 30}
 RULE = ("pairs of runs (stop-free, then with injected stop requests placed on calls of the stop-free trace) "
         "with 1-4 trackers (callback / StorageTracker+MemoryStorage / DataTracker; constant, fixed, logarithmic, "
         "geometric, adversarial oracle schedules, time strings; several trackers due together; D/dt in {0.25..10, x.5 ties, "
@@ -66,8 +72,11 @@ ASSUMPTIONS = [
     "no history-independent defining set: general clauses only (+ first call at t_start for time strings)",
     "`exactly at it for adaptive steppers` is judged for trackers whose schedule is t_start + k*D (the statement's "
     "schedule); a tracker with an own start offset less than dt/2 after t_start is served at t_start",
-    "truly adaptive steppers (dt and with it both tolerances change during the run, targets overshot by dt_min = 1e-10) "
-    "are monitored, not modelled (theorems adaptive_served_exactly*_partial)",
+    "adaptive steppers (Model/Adaptive.lean, handler c08.adaptive): the inner loop of adaptive_stepper (clipping of the "
+    "step to the next tracker time, landing on it, dt_min) and the controller loop whose tolerances follow the current dt "
+    "are modelled and replayed bit for bit; what the error estimator decides per attempt (accepted?, time step proposed "
+    "by adjust_dt) is recorded from the real run and given to the model as an oracle; the state between tracker times "
+    "is that of u' = 1 (compared for that equation only)",
 ]
 TRUSTED_EXTRA = ["IEEE double arithmetic of Lean's Float equals CPython/numpy/numba float64 for + - * / floor"]
 
@@ -366,6 +375,182 @@ def exact_leg(ctx, batch, pending):
         report(ctx, "adaptive-probe", case, ctrl.monitor_exact(case, real))
 
 
+
+# ------------------------------------------------------------------------------------------
+# adaptive steppers against the model `runAdaptiveSpec` (Model/Adaptive.lean, handler c08.adaptive): the decisions of
+# the error estimator (per attempt of the inner loop: accepted?, time step proposed by adjust_dt) are recorded from
+# the real run; everything the stepper and the controller do with them is replayed bit for bit by the model
+def execute_adaptive_recorded(case):
+    """`ctrl.execute` with `_make_dt_adjuster` / `make_stepper` of the adaptive solvers wrapped by recorders
+    (numpy backend, in-process); `case["dt_max"]` sets the class attribute `dt_max` for the run"""
+    import pde.solvers.base as sb
+    import pde.solvers.euler as se
+    log = {"calls": [], "dt_min": None}
+    cur = []
+    orig_adj, orig_adj_e, orig_ms = sb._make_dt_adjuster, se._make_dt_adjuster, sb.AdaptiveSolverBase.make_stepper
+    orig_max = sb.AdaptiveSolverBase.dt_max
+
+    def rec_adjuster(dt_min, dt_max):
+        f = orig_adj(dt_min, dt_max)
+        log["dt_min"] = float(dt_min)
+
+        def adjust_dt(dt, err):
+            out = f(dt, err)
+            cur.append((float(dt), bool(err <= 1), float(out)))
+            return out
+        return adjust_dt
+
+    def rec_make_stepper(self, state, dt=None):
+        stepper = orig_ms(self, state, dt=dt)
+        solver = self
+
+        def wrapped(state, t_start, t_end):
+            del cur[:]
+            t = stepper(state, t_start, t_end)
+            log["calls"].append({"t": float(t_start), "target": float(t_end), "attempts": list(cur), "ret": float(t),
+                                 "dt": float(solver.info["dt"])})
+            return t
+        return wrapped
+
+    sb._make_dt_adjuster = se._make_dt_adjuster = rec_adjuster
+    sb.AdaptiveSolverBase.make_stepper = rec_make_stepper
+    if case.get("dt_max") is not None:
+        sb.AdaptiveSolverBase.dt_max = case["dt_max"]
+    try:
+        real = ctrl.execute(case)
+    finally:
+        sb._make_dt_adjuster, se._make_dt_adjuster = orig_adj, orig_adj_e
+        sb.AdaptiveSolverBase.make_stepper = orig_ms
+        sb.AdaptiveSolverBase.dt_max = orig_max
+    real["adaptive_log"] = log
+    return real
+
+
+def adaptive_request(case, real):
+    from harness.common.num import fbits
+    log = real["adaptive_log"]
+    req = ctrl.model_request(case, "F", ctrl.oracle_answers(real, ctrl.needs_oracle(case, "F")))
+    for k in ("eq", "stepper", "shift", "a", "solver"):
+        req.pop(k, None)
+    att = []
+    for c in log["calls"]:
+        att += [[bool(acc), fbits(new)] for _dt, acc, new in c["attempts"]]
+        att.append([True, fbits(c["dt"])])  # the accepted attempt that reached the target (adjust_dt is not called)
+    req.update(dt_min=fbits(log["dt_min"] if log["dt_min"] is not None else 1e-10), attempts=att,
+               fuel=len(log["calls"]) + 5)
+    return req
+
+
+def adaptive_compare(case, real, model):
+    """first difference between an adaptive run and the answer of `c08.adaptive`, or None; times, dt bit for bit"""
+    from harness.common.num import fbits, unfbits
+    same = lambda x, s: fbits(x) == s
+    if model["exit"] == "fuel":
+        return {"what": "model ran out of fuel / oracle entries"}
+    if len(real["trace"]) != len(model["trace"]):
+        return {"what": "number of handle calls", "impl": real["trace"][:40],
+                "model": [[e[0], unfbits(e[1])] for e in model["trace"][:40]]}
+    for n, (r, m) in enumerate(zip(real["trace"], model["trace"])):
+        if r[0] != m[0] or not same(r[1], m[1]):
+            return {"what": f"handle call {n}", "impl": list(r), "model": [m[0], unfbits(m[1])]}
+        if case["eq"] == "one" and not ctrl.state_close(case, r[2], unfbits(m[2]), 1e-9):
+            return {"what": f"state at handle call {n}", "impl": list(r), "model": unfbits(m[2])}
+    if real["steps"] != model["steps"]:
+        return {"what": "steps (accepted steps)", "impl": real["steps"], "model": model["steps"]}
+    if not same(real["t_final"], model["t_final"]):
+        return {"what": "t_final", "impl": real["t_final"], "model": unfbits(model["t_final"])}
+    if not same(real["dt_final"], model["dt_final"]):
+        return {"what": "last solver.info['dt']", "impl": real["dt_final"], "model": unfbits(model["dt_final"])}
+    if model["iters"] != len(real["adaptive_log"]["calls"]):
+        return {"what": "number of stepper calls", "impl": len(real["adaptive_log"]["calls"]), "model": model["iters"]}
+    if real["stop_reason"] != model["stop_reason"] or real["successful"] != model["successful"]:
+        return {"what": "stop reason", "impl": [real["stop_reason"], real["successful"]],
+                "model": [model["stop_reason"], model["successful"]]}
+    fin_model = [i for i, tr in enumerate(model["trackers"]) for _ in range(tr["finalized"])]
+    if real["finalized"] != fin_model:
+        return {"what": "finalize calls", "impl": real["finalized"], "model": fin_model}
+    for i, (tr, mt) in enumerate(zip(case["trackers"], model["trackers"])):
+        if tr["kind"] == "callback":
+            continue
+        rt = real["times"][i]
+        if len(rt) != len(mt["times"]) or not all(same(a, b) for a, b in zip(rt, mt["times"])):
+            return {"what": f"recorded times of tracker {i}", "impl": rt, "model": [unfbits(x) for x in mt["times"]]}
+    return None
+
+
+# (solver, eq, dt, dt_max, t_end, intervals): constant time step dt_max accumulates round-off, so that an accepted step
+# ends an ulp before the tracker time and the stepper adds a step of dt_min (the overshoot of `adaptiveStepper_lands`)
+DTMIN_PROBE = [
+    ("euler", "one", 0.1, 0.1, 2.0, [0.8]),
+    ("euler", "one", 0.1, 0.1, 3.0, [0.3, 0.7]),
+    ("runge-kutta", "one", 0.1, 0.1, 2.5, [1.2]),
+    ("euler", "time", 0.05, 0.1, 2.0, [0.6]),
+    ("runge-kutta", "time", 0.1, 0.1, 2.0, [0.8, 0.5]),
+]
+
+
+def adaptive_leg(ctx):
+    from harness.common.lean import LeanBatch
+    rng = ctx.rng
+    batch, pend = LeanBatch(ctx.workdir), []
+    cases = []
+    for k in range(ctx.budget(60, 1200)):
+        case = gen_exact_case(rng, lambda *a: None, rng.choice(["euler", "runge-kutta"]))
+        case["eq"] = rng.choice(["one", "time", "time"])  # u' = t: steps are rejected, dt is not monotone
+        if rng.random() < 0.3:
+            case["dt_max"] = case["dt"] * rng.choice([0.5, 1.0, 1.0, 2.0, 3.0])
+        cases.append(case)
+    for solver, eq, dt, dt_max, t1, intervals in DTMIN_PROBE:
+        cases.append({"numbers": "F", "dt": dt, "t_start": 0.0, "t_end": t1, "u0": 0.0, "eq": eq, "solver": solver,
+                      "backend": "numpy", "jit": False, "N": None, "delta": 0.0, "cells": 1, "stepper": "exact",
+                      "adaptive": True, "round_off": True, "dt_max": dt_max,
+                      "trackers": [{"kind": "storage", "sched": {"kind": "constant", "dt": D, "t_start": None},
+                                    "stops": []} for D in intervals]})
+    for case in cases:
+        real = execute_adaptive_recorded(case)
+        if not real.get("error") and real["trace"] and rng.random() < 0.3:
+            case = place_stops(rng, lambda *a: None, case, real)
+            real = execute_adaptive_recorded(case)
+        ok = not real.get("error")
+        ctx.count(case, nontrivial=ok and len(real["trace"]) >= 2 and len(real["adaptive_log"]["calls"]) >= 2,
+                  leg="adaptive-model/" + case["solver"])
+        if not ok:
+            ctx.hist("adaptive-model outcome", "real run raised: " + real["error"][:40])
+            if "Time step below" not in real["error"]:
+                ctx.disagree("correspondence", case, "run completes", real["error"], "adaptive run raised")
+            continue
+        log = real["adaptive_log"]
+        n_att = sum(len(c["attempts"]) + 1 for c in log["calls"])
+        n_rej = sum(1 for c in log["calls"] for _d, acc, _n in c["attempts"] if not acc)
+        over = sum(1 for c in log["calls"] if c["ret"] > c["target"])
+        ctx.hist("adaptive-model attempts", min(n_att, 255) // 32 * 32)
+        ctx.hist("adaptive-model rejected steps", "0" if n_rej == 0 else "1-3" if n_rej <= 3 else "4+")
+        ctx.hist("adaptive-model stepper calls that overshoot by dt_min", min(over, 3))
+        ctx.hist("adaptive-model dt_final / dt", "grown" if real["dt_final"] > case["dt"] else
+                 "same" if real["dt_final"] == case["dt"] else "shrunk")
+        ctx.monitor_evals += 1
+        report(ctx, "exact-stepper", case, ctrl.monitor_exact(case, real))
+        # every stepper call returns its target or overshoots it by less than dt_min (theorem adaptiveStepper_lands)
+        for c in log["calls"]:
+            if not (c["ret"] == c["target"] or c["target"] < c["ret"] < c["target"] + log["dt_min"] * (1 + 1e-6)):
+                report(ctx, "exact-stepper", case, [("adaptive stepper returns its target (or overshoots by < dt_min)",
+                                                     c["ret"], c["target"])])
+                break
+        pend.append((case, real, batch.add("c08.adaptive", adaptive_request(case, real))))
+    answers = batch.run()
+    for case, real, i in pend:
+        kind, val = answers[i]
+        ctx.impl_traces += 1
+        slim = {k: v for k, v in case.items()}
+        if kind != "ok":
+            ctx.disagree("correspondence", slim, "model answer", val, "c08.adaptive failed")
+            continue
+        diff = adaptive_compare(case, real, val)
+        if diff is not None:
+            ctx.disagree("correspondence", slim, diff.get("model"), diff.get("impl"),
+                         "adaptive run vs runAdaptiveSpec: " + diff["what"])
+
+
 def monitors(ctx, case, real):
     if isinstance(real, str) or real.get("error"):
         return
@@ -410,6 +595,7 @@ def run(ctx):
     corner_probe(ctx)
     start_probe(ctx, batch, pending)
     exact_leg(ctx, batch, pending)
+    adaptive_leg(ctx)
     answers = batch.run()
     batch2 = LeanBatch(ctx.workdir)
     retry = ctrl.resolve(ctx, pending, answers, batch2)
@@ -480,7 +666,10 @@ def replay(ctx, rep):
         print("this file records no case of C08 (nothing to re-run): cannot be replayed")
         return False
     print("execution mode:", ctrl.exec_mode(case), "| leg:", rep.get("leg"))
-    real = ctrl.execute_as_recorded([case])[0]
+    if case.get("dt_max") is not None:
+        real = execute_adaptive_recorded(case)  # (the adaptive-model leg sets the class attribute dt_max: in-process)
+    else:
+        real = ctrl.execute_as_recorded([case])[0]
     if real.get("error"):
         print("run raised:", real["error"])
         return False
